@@ -714,6 +714,14 @@ def judge(dev, recs, segs):
                     mv = 'ok'
                 if mv != rc:
                     bad.append('verdict: model %s real %r' % (mv, cats))
+        if bad and seg['verdict'] not in ('ok', 'usage') and mw != 'registers' and before != after \
+                and seg['cls'] in ('cmd', 'repeat', 'nocmd', 'norepeat'):
+            # the documented behaviour (model) rejects this line, the real monitor changed session state
+            diff = [k for k in before if before[k] != after[k]]
+            finding('rejected-changed', 'onecmd(%r) must be rejected (%s) but the monitor accepted it and changed %s'
+                    % (ln.text, seg['verdict'], diff), rec,
+                    dict(before={k: before[k] for k in diff}, after={k: after[k] for k in diff}, output=text[-700:]),
+                    cmd=mw, refused=seg['verdict'], changed=diff[0])
         if bad:
             ties.append(dict(what='model and real monitor disagree on line %d %r of session %r [%s]' % (
                 idx, ln.text, hist[:-1], dev), model='; '.join(bad)[:600], real=text[:300],
